@@ -265,7 +265,8 @@ class Run:
             region = self.region(s, r)
             if prefix_of_existing and m.entries[key]:
                 base = m.entries[key][-1]["url"]
-                url = base + "/sub"
+                self.url_n += 1
+                url = base + "/sub%d" % self.url_n       # prefix-related to an existing grant, but never the same URL as another cap
                 self.ambiguous_urls.add(url)
             else:
                 url = self.fresh_url(s, r)
